@@ -271,7 +271,9 @@ def layout(ctx, fx, fxd):
                     else:
                         got = m["value"] if slot == "value" else (m["args"][slot] if m["args"] and slot < len(m["args"]) else None)
                         if got is None:
-                            det = "not a polynomial in the layout symbols (line %s)" % ev.get("l")
+                            ctx.broken("%s, %s, version %d: the expression at line %s is outside the interpreted fragment; the "
+                                       "site cannot be decided" % (s.sid, what, v, ev.get("l")))
+                            continue
                 exp = expect(v)
                 if not det and got != exp:
                     det = "computes %s, the canonical layout has %s (difference %s)" % (got, exp, got - exp)
